@@ -119,6 +119,7 @@ def c01(ctx):
                 "Contexts x Fillers, seeded random ASTs; texts: all strings over {a,b,c,e-acute,LF,-} up to the length bound; "
                 "non-trivial = cells in which RefSem!Search has a match (counted by TLC); overall span compared")
     hybrid_model(ctx, "pat123", [pats("core", 1), pats("core", 2), pats("core", 3)], None if ctx.quick else 20000)
+    mc_pipeline(ctx, 1, 400)
     for name, recs, tpath in core_space(ctx):
         rowsp.run_rows(ctx, name, recs, tpath, "span", excl)
     cf = [r for r in read_ndjson(pats("ctxfill", 0))]
@@ -481,6 +482,24 @@ def mc_front(ctx):
                                note="front end closed in the specification: Spell -> characters -> Parse.tla -> Abs -> Norm = Norm(ast), group count and names")
 
 
+def mc_pipeline(ctx, styles, k_quick, textsig=("sig6", 2)):
+    """The whole library as one function of the specification (string -> Parse.tla -> Front -> Analyze -> Compile -> VM) against RefSem of the
+    intended pattern, for every applicable style <= styles, every text and every offset (MC_Pipeline.tla)."""
+    files = [pats("core", n) for n in (1, 2, 3)] + [pats("ctxfill", 0)]
+    recs = []
+    for f in files:
+        recs += read_ndjson(f)
+    if ctx.quick:
+        recs = sample(ctx, recs, k_quick)
+    path = os.path.join(common.workdir(ctx.prop), "pipeline.pats.ndjson")
+    common.write_ndjson(path, renumber_ids(recs))
+    cfg = "SPECIFICATION Spec\nINVARIANT FrontEndAccepts\nINVARIANT SameCompileVerdict\nINVARIANT PipelineAgrees\nCHECK_DEADLOCK FALSE\n"
+    r = tlc.run_mc(ctx, "MC_Pipeline", cfg, env=dict(VH_PATS=path, VH_TEXTS=texts(*textsig), VH_STYLES=styles), workers=12, timeout=14400)
+    mc_violation(ctx, r, "MC_Pipeline(%d patterns, styles <= %d)" % (len(recs), styles))
+    ctx.cov["mc_pipeline"] = dict(patterns=len(recs), styles=styles, pattern_style_pairs=r.distinct - len(recs) - 1, texts="%s<=%d" % textsig,
+                                  note="string -> Parse.tla -> Abs/Norm -> Analyze -> Compile -> VM.tla = RefSem!Search of the intended pattern, all groups, every text and offset")
+
+
 @check("C19")
 def c19(ctx):
     excl = "".join(common.excl_classes("C19"))
@@ -491,6 +510,7 @@ def c19(ctx):
                 "non-trivial = matching cells")
     t3 = texts("sig6", 3)
     mc_front(ctx)
+    mc_pipeline(ctx, 13, 150)
     sp = []
     for n in (1, 2, 3):
         sp += read_ndjson(common.export("spell_core_%d" % n, "spell", n, prof="core"))
